@@ -10,7 +10,9 @@ import (
 	"github.com/emitter-io/emitter/verif/drivers/adapters"
 	"github.com/emitter-io/emitter/verif/drivers/authz"
 	"github.com/emitter-io/emitter/verif/drivers/ban"
+	"github.com/emitter-io/emitter/verif/drivers/codec"
 	vcrdt "github.com/emitter-io/emitter/verif/drivers/crdt"
+	"github.com/emitter-io/emitter/verif/drivers/durable"
 	"github.com/emitter-io/emitter/verif/drivers/history"
 	"github.com/emitter-io/emitter/verif/drivers/mqttc"
 	"github.com/emitter-io/emitter/verif/drivers/peerq"
@@ -31,16 +33,22 @@ var checks = map[string]func(*core.Ctx){
 	"C11": authz.RunC11,
 	"C12": authz.RunC12,
 	"C14": ban.Run,
+	"C15": durable.Run,
 	"C16": mqttc.Run,
 	"C17": adapters.Run,
 	"C18": session.RunC18,
 	"C19": peerq.Run,
+	"C20": codec.Run,
 }
 
 func main() {
 	if len(os.Args) < 2 {
 		fmt.Fprintln(os.Stderr, "usage: vcheck <Cnn> [quick|thorough] [--replay file]")
 		os.Exit(core.ExitMachinery)
+	}
+	if os.Args[1] == "_storechild" {
+		durable.Child(os.Args[2:])
+		return
 	}
 	id := strings.ToUpper(os.Args[1])
 	tier := os.Getenv("VERIF_TIER")
